@@ -7,3 +7,9 @@ pub(crate) mod c40 {
     use super::super::*;
     include!(concat!(env!("LIBP2P_VERIF"), "/units/C40/key.rs"));
 }
+
+pub(crate) mod c41 {
+    #[allow(unused_imports)]
+    use super::super::*;
+    include!(concat!(env!("LIBP2P_VERIF"), "/units/C41/key_helper.rs"));
+}
